@@ -89,7 +89,7 @@ def run(r):
         "std's fmt machinery (Formatter adapters, Display of numbers, DebugList/DebugMap) stops at the first fmt::Error — validated by failure injection at every piece, not modelled",
         "user supplied formatters and Object::render implementations propagate the fmt::Error of the writer they are given",
     ]
-    r.regen_tables(["C19_WRITE_SITES", "C19_WRITER_APIS", "C19_WRAPPER_SITES", "C19_SMALL_INT_LIMIT", "C19_UNHOOKED_BODIES", "HTML_ESCAPE_TABLE"])
+    r.regen_tables(["C19_WRITE_SITES", "C19_WRITER_APIS", "C19_WRAPPER_SITES", "C19_SMALL_INT_LIMIT", "C19_UNHOOKED_BODIES", "C19_WRITEWRAPPER_METHODS", "HTML_ESCAPE_TABLE"])
     r.lean_prove("MJ.Props.C19", "MJ/Audit/C19.lean", extra_targets=["drive_c19"])
     exe = r.cargo_build("c19")
     if exe is None:
@@ -207,7 +207,7 @@ def run(r):
     # ---- the same streams against minijinja compiled WITHOUT verif_hooks (what real users compile):
     # hooked build == unhooked build, and the property on the unhooked observations
     exe2 = r.cargo_build("c19", no_hooks=True)
-    n_unhooked = 0
+    n_unhooked = n_unhooked_user = 0
     if exe2 is not None:
         rc, out2, err = r.harness(exe2, ["gen", r.tier, "sub"])
         if rc != 0:
@@ -228,6 +228,8 @@ def run(r):
                 pid, api = key.split(" ")[0:2]
                 m, o = kv(f[2]), kv(f[3])
                 n_unhooked += 1
+                if api_class(api) in ("ufmt", "ublock"):
+                    n_unhooked_user += 1
                 r.count("unhooked " + key, True)
                 judge(r, key, api, clean_res.get((pid, api), "?"), m, o)
                 h = hooked.get(key)
@@ -238,6 +240,13 @@ def run(r):
             if n_unhooked < 20000:
                 r.broken.append("unhooked stream degenerate: %d cases" % n_unhooked)
     r.extra["cases_rerun_on_unhooked_build"] = n_unhooked
+    r.extra["unhooked_user_writer_cases"] = n_unhooked_user
+    r.extra["note_hooked_vs_unhooked"] = ("Output::target() differs between the builds (hooked: logging tap that splits write_fmt into "
+        "write_str/write_char; unhooked: the concrete target), so overrides of write_fmt/write_char on WriteWrapper/String/NullWriter "
+        "are reachable only unhooked: all user-writer programs (APIs ufmt/ublock: a user formatter writing through every fmt::Write "
+        "method, Object::render through every Formatter method) run on the unhooked build too")
+    if exe2 is not None and n_unhooked_user < 5000:
+        r.broken.append("unhooked user-writer stream degenerate: %d cases" % n_unhooked_user)
     r.extra["programs_x_apis"] = n_prog
     r.extra["emits_compared"] = n_emit
     r.extra["emits_whose_pieces_the_model_determines"] = n_emit_det
@@ -253,7 +262,7 @@ def run(r):
     sf = r.hist["structured_flatten"]
     if model is not None and (sf["same"] < 40 or sf["erased-same"] < 40 or n_routed < 5000):
         r.broken.append("structured/op-log tie degenerate: flatten verdicts %s, routed writes %d" % (dict(sf), n_routed))
-    if n_fail_cases < 1000 or n_ok_cases < 1000 or not {"full", "fmt", "block", "fn"} <= apis_with_failures:
+    if n_fail_cases < 1000 or n_ok_cases < 1000 or not {"full", "fmt", "ufmt", "block", "ublock", "fn"} <= apis_with_failures:
         r.broken.append("fault injection degenerate: %d failing / %d clean cases, apis %s" % (n_fail_cases, n_ok_cases, sorted(apis_with_failures)))
 
 
